@@ -9,13 +9,6 @@ void h_invalidateStageJustThisSubsystem(void) { struct PerSubsystemInfo* s; Stag
 void h_advanceToStage(void)    { struct PerSubsystemInfo* s; Stage g; advanceToStage(s, g); }
 void h_getSubsystem(void)      { struct StateImpl* st; int i; StateImpl_getSubsystem(st, i); }
 
-void h_noteQChange(void) { struct StateImpl* s; noteQChange(s); }
-void h_noteUChange(void) { struct StateImpl* s; noteUChange(s); }
-void h_noteZChange(void) { struct StateImpl* s; noteZChange(s); }
-void h_noteYChange(void) { struct StateImpl* s; noteYChange(s); }
-void h_invalidateJustSystemStage(void) { struct StateImpl* s; Stage g; invalidateJustSystemStage(s, g); }
-void h_invalidateAll(void) { struct StateImpl* s; Stage g; invalidateAll(s, g); }
-void h_invalidateAllCacheAtOrAbove(void) { struct StateImpl* s; Stage g; invalidateAllCacheAtOrAbove(s, g); }
 
 #ifdef PLAIN_WORLD
 /* =====================================================================================
@@ -222,4 +215,130 @@ void h_L_initial(void) {
   __CPROVER_assert(CE_STAMP(&ce) != ss.stageVersions[ce.m_dependsOnStage], "L_initial: the initial stamp matches no stage version (0 is never a version)");
 }
 
+
+/* =====================================================================================
+   StateImpl level (plain world, REAL bodies all the way down to the container stubs)
+   ===================================================================================== */
+static bool st_same_sys(const struct StateImpl* a, const struct StateImpl* b) {
+  bool eq = a->currentSystemStage == b->currentSystemStage && a->qVersion == b->qVersion && a->uVersion == b->uVersion && a->zVersion == b->zVersion
+            && SAME_REAL(a->t, b->t) && a->subsystems_size == b->subsystems_size && a->g_sub == b->g_sub;
+  for (int i = 0; i < Stage_NValid; i++) eq = eq && a->systemStageVersions[i] == b->systemStageVersions[i];
+  return eq;
+}
+int vf_any_subsys;
+static void world_sys(void) {
+  world();
+  __CPROVER_assume(SYS_WF(&W_st) && GHOST_J_OK && ghost_threw == 0);
+  __CPROVER_assume(0 <= vf_any_subsys && vf_any_subsys < W_st.subsystems_size);
+}
+/* the system part of "invalidate stage g": system stage' == min(stage, g-1); exactly the versions of the
+   invalidated stages g..stage are bumped; if Model stage is invalidated the continuous variables are
+   de-allocated, so the q,u,z VALUE versions change; if Topology is invalidated time becomes NaN.
+   Relations n(ew) vs o(ld), as expressions, so that they can be ASSERTED (units state.*) and ASSUMED (contract form). */
+#define MODEL_GONE(o, g) (((o)->currentSystemStage >= Stage_Model && Stage_Model >= (g)) ? 1 : 0)
+#define SYS_R1(n, o, g) ((n)->currentSystemStage == MINI((o)->currentSystemStage, (g) - 1))
+#define SYS_R2(n, o, g) ((n)->systemStageVersions[ghost_j] == (o)->systemStageVersions[ghost_j] + (((g) <= ghost_j && ghost_j <= (o)->currentSystemStage) ? 1 : 0))
+#define SYS_R3(n, o, g, bq, bu, bz) ((n)->qVersion == (o)->qVersion + MODEL_GONE(o, g) + (bq) && (n)->uVersion == (o)->uVersion + MODEL_GONE(o, g) + (bu) && \
+                                     (n)->zVersion == (o)->zVersion + MODEL_GONE(o, g) + (bz))
+#define SYS_R4(n, o, g) ((((o)->currentSystemStage >= Stage_Topology && Stage_Topology >= (g)) ? __CPROVER_isnand((n)->t) : SAME_REAL((n)->t, (o)->t)) && \
+                         (n)->subsystems_size == (o)->subsystems_size && (n)->g_sub == (o)->g_sub)
+#define ASSERT_SYS_INVALIDATED(tag, st0, g, bq, bu, bz) do { \
+  __CPROVER_assert(SYS_R1(&W_st, &(st0), g), tag ".postcondition: system stage' == min(stage, g-1)"); \
+  __CPROVER_assert(SYS_R2(&W_st, &(st0), g), tag ".postcondition: exactly the system stage versions g..stage are bumped"); \
+  __CPROVER_assert(SYS_R3(&W_st, &(st0), g, bq, bu, bz), tag ".postcondition: q,u,z value versions change exactly when the values may have changed"); \
+  __CPROVER_assert(SYS_R4(&W_st, &(st0), g), tag ".postcondition: time reset iff Topology invalidated; subsystem container untouched"); } while (0)
+/* the per-subsystem part, for the GHOST subsystem (arbitrary, hence every subsystem) */
+#define SUB_R1(n, o, g) ((n)->currentStage == MINI((o)->currentStage, (g) - 1))
+#define SUB_R2(n, o, g) (!((g) > Stage_Topology || (o)->currentStage == Stage_Empty) || \
+     (n)->stageVersions[ghost_j] == (o)->stageVersions[ghost_j] + (((g) <= ghost_j && ghost_j <= (o)->currentStage) ? 1 : 0))
+#define SUB_R3(n, o, g) (!((g) == Stage_Topology && (o)->currentStage > Stage_Empty) || \
+     ((n)->stageVersions[ghost_j] == 1 && (n)->cacheInfo_size == 0 && (n)->discreteInfo_size == 0))
+#define SUB_R4(n, o, g) (0 <= (n)->cacheInfo_size && (n)->cacheInfo_size <= (o)->cacheInfo_size && 0 <= (n)->discreteInfo_size && (n)->discreteInfo_size <= (o)->discreteInfo_size && \
+     (n)->g_ce == (o)->g_ce && (n)->g_dv == (o)->g_dv)
+#define ASSERT_SUB_INVALIDATED(tag, ss0, g) do { \
+  __CPROVER_assert(SUB_R1(&W_ss, &(ss0), g), tag ".postcondition: EVERY subsystem stage' == min(stage, g-1)"); \
+  __CPROVER_assert(SUB_R2(&W_ss, &(ss0), g), tag ".postcondition: exactly the subsystem stage versions g..stage are bumped"); \
+  __CPROVER_assert(SUB_R3(&W_ss, &(ss0), g), tag ".postcondition: Topology invalidated -> just-constructed subsystem"); \
+  __CPROVER_assert(SUB_R4(&W_ss, &(ss0), g), tag ".frame: allocation stacks only shrink"); } while (0)
+
+#ifdef INVALIDATEALL_BY_CONTRACT
+/* invalidateAll's contract in assert-requires / havoc-assigns / assume-ensures form, for its callers.
+   requires: well-formed state (incl. the overflow assumption), g a real stage; assigns: the system view and the
+   view of the ghost subsystem; ensures: exactly the relations proved of the real body in unit state.invalidateAll
+   (ghost_j arbitrary but fixed => all stage indices). */
+int ghost_invalidateAll_calls;
+void invalidateAll(struct StateImpl* self, Stage g) {
+  __CPROVER_assert(self == &W_st && SYS_WF(self) && SUB_WF(self->g_sub) && STAGE_OK(g) && g > Stage_Empty, "invalidateAll precondition (well-formed state, g > Empty)");
+  struct StateImpl o = *self; struct PerSubsystemInfo so = *self->g_sub;
+  struct StateImpl n; struct PerSubsystemInfo sn; *self = n; *o.g_sub = sn;
+  __CPROVER_assume(SYS_R1(self, &o, g) && SYS_R2(self, &o, g) && SYS_R3(self, &o, g, 0, 0, 0) && SYS_R4(self, &o, g));
+  __CPROVER_assume(SUB_R1(self->g_sub, &so, g) && SUB_R2(self->g_sub, &so, g) && SUB_R3(self->g_sub, &so, g) && SUB_R4(self->g_sub, &so, g));
+  ghost_invalidateAll_calls++;
+}
+#endif
+
+void h_noteChange(void) {
+  world_sys(); struct StateImpl st0 = W_st; struct PerSubsystemInfo ss0 = W_ss; int which;
+  if (which == 0) noteQChange(&W_st); else if (which == 1) noteUChange(&W_st); else if (which == 2) noteZChange(&W_st); else noteYChange(&W_st);
+  __CPROVER_assert(W_st.qVersion == st0.qVersion + (which == 0 || which < 0 || which > 2), "noteQ/YChange.postcondition: q value version bumped exactly by its own notifier");
+  __CPROVER_assert(W_st.uVersion == st0.uVersion + (which == 1 || which < 0 || which > 2), "noteU/YChange.postcondition: u value version");
+  __CPROVER_assert(W_st.zVersion == st0.zVersion + (which == 2 || which < 0 || which > 2), "noteZ/YChange.postcondition: z value version");
+  st0.qVersion = W_st.qVersion; st0.uVersion = W_st.uVersion; st0.zVersion = W_st.zVersion;
+  __CPROVER_assert(st_same_sys(&st0, &W_st) && ss_same(&ss0, &W_ss), "note*Change.frame: no stage or stage version changes");
+}
+void h_invalidateJustSystemStage(void) {
+  world_sys(); Stage g; __CPROVER_assume(STAGE_OK(g) && g > Stage_Empty);
+  struct StateImpl st0 = W_st; struct PerSubsystemInfo ss0 = W_ss;
+  invalidateJustSystemStage(&W_st, g);
+  ASSERT_SYS_INVALIDATED("invalidateJustSystemStage", st0, g, 0, 0, 0);
+  __CPROVER_assert(ss_same(&ss0, &W_ss), "invalidateJustSystemStage.frame: no subsystem stage or version changes");
+}
+void h_invalidateAll(void) {
+  world_sys(); Stage g; __CPROVER_assume(STAGE_OK(g) && g > Stage_Empty);
+  struct StateImpl st0 = W_st; struct PerSubsystemInfo ss0 = W_ss; struct CacheEntryInfo ce0 = W_ce;
+  invalidateAll(&W_st, g);
+  ASSERT_SYS_INVALIDATED("invalidateAll", st0, g, 0, 0, 0);
+  ASSERT_SUB_INVALIDATED("invalidateAll", ss0, g);
+  __CPROVER_assert(CE_EQ(&ce0, &W_ce), "invalidateAll.frame: cache entry stamps/flags are not edited (validity changes only through stage versions)");
+}
+void h_invalidateAllCacheAtOrAbove(void) {
+  world_sys(); Stage g; __CPROVER_assume(STAGE_OK(g) && g > Stage_Empty);
+  struct StateImpl st0 = W_st; struct PerSubsystemInfo ss0 = W_ss;
+  invalidateAllCacheAtOrAbove(&W_st, g);
+  __CPROVER_assert(ghost_threw == (g < Stage_Instance), "invalidateAllCacheAtOrAbove: throws exactly for g < Instance");
+  if (ghost_threw) __CPROVER_assert(st_same_sys(&st0, &W_st) && ss_same(&ss0, &W_ss), "invalidateAllCacheAtOrAbove: a rejected call changes nothing");
+  else { ASSERT_SYS_INVALIDATED("invalidateAllCacheAtOrAbove", st0, g, 0, 0, 0); ASSERT_SUB_INVALIDATED("invalidateAllCacheAtOrAbove", ss0, g); }
+}
+
+/* upd* accessors: "changing a variable lowers the realized stage of the system and of EVERY subsystem to just
+   below the stage that variable invalidates" (DOCUMENTED stage D from State.h), "and value versions change
+   whenever the corresponding values may have changed"; nothing else changes. Precondition: the documented
+   minimum system stage (then the Debug-build stage check does not throw). */
+#ifdef INVALIDATEALL_BY_CONTRACT
+#define ACCESSOR_HARNESS(NAME, CALL, D, BQ, BU, BZ, MINSYS) \
+void h_acc_##NAME(void) { \
+  world_sys(); __CPROVER_assume(W_st.currentSystemStage >= (MINSYS)); \
+  struct StateImpl st0 = W_st; struct PerSubsystemInfo ss0 = W_ss; struct CacheEntryInfo ce0 = W_ce; \
+  CALL; \
+  __CPROVER_assert(ghost_threw == 0, #NAME ": no exception when the documented minimum stage is met"); \
+  __CPROVER_assert(ghost_invalidateAll_calls == 1, #NAME ": invalidates exactly once"); \
+  ASSERT_SYS_INVALIDATED(#NAME, st0, D, BQ, BU, BZ); \
+  ASSERT_SUB_INVALIDATED(#NAME, ss0, D); \
+  __CPROVER_assert(CE_EQ(&ce0, &W_ce), #NAME ".frame: cache entry records untouched"); }
+/* soundness-only variant (code invalidates an earlier stage than documented: conservative, see CONSERVATIVE_OK):
+   stage' <= min(stage, D-1); every realized stage >= D gets its version bumped; stages that stay realized keep theirs */
+#define ACCESSOR_HARNESS_CONSERVATIVE(NAME, CALL, D, BQ, BU, BZ, MINSYS) \
+void h_acc_##NAME(void) { \
+  world_sys(); __CPROVER_assume(W_st.currentSystemStage >= (MINSYS)); \
+  struct StateImpl st0 = W_st; struct PerSubsystemInfo ss0 = W_ss; \
+  CALL; \
+  __CPROVER_assert(ghost_threw == 0, #NAME ": no exception when the documented minimum stage is met"); \
+  __CPROVER_assert(W_st.currentSystemStage <= MINI(st0.currentSystemStage, (D) - 1) && W_ss.currentStage <= MINI(ss0.currentStage, (D) - 1), #NAME ".soundness: stages lowered at least to D-1"); \
+  __CPROVER_assert(!((D) <= ghost_j && ghost_j <= ss0.currentStage) || W_ss.stageVersions[ghost_j] == ss0.stageVersions[ghost_j] + 1, #NAME ".soundness: versions of all invalidated documented stages bumped"); \
+  __CPROVER_assert(!(ghost_j <= W_ss.currentStage) || W_ss.stageVersions[ghost_j] == ss0.stageVersions[ghost_j], #NAME ".soundness: still-realized stages keep their versions"); \
+  __CPROVER_assert(W_st.qVersion == st0.qVersion + (BQ) && W_st.uVersion == st0.uVersion + (BU) && W_st.zVersion == st0.zVersion + (BZ), #NAME ": value versions"); }
+#else
+#define ACCESSOR_HARNESS(a,b,c,d,e,f,g)
+#define ACCESSOR_HARNESS_CONSERVATIVE(a,b,c,d,e,f,g)
+#endif /* INVALIDATEALL_BY_CONTRACT */
 #endif /* PLAIN_WORLD */
